@@ -265,40 +265,89 @@ func vfC14Wrap(t *testing.T, k *vfKit, caseID string, nMsgs int) {
 	k.Nontrivial(fmt.Sprintf("%s/%d/%d/%d", caseID, stride, nMsgs, rx.steps))
 }
 
-func vfC14GlobalFlood(t *testing.T, k *vfKit, caseID string, perSrcIDs int, extra int) {
+// vfC14FloodShape parameterises a global-cap flood: how many IDs each source uses, how many chunks the
+// forged messages have, and how many of them have arrived (the table's entries are then all "have
+// received R of T chunks" - in particular all one chunk short of completion).
+type vfC14FloodShape struct {
+	PerSrcIDs int  `json:"ids_per_source"` // 0 = 1..8 at random per source
+	Total     int  `json:"total_chunks"`   // 0 = 2..8 at random per message
+	Nearly    bool `json:"all_but_one_chunk_received"`
+	Extra     int  `json:"entries_beyond_cap"`
+	MinSrc    int  `json:"min_sources"`
+	Shuffle   bool `json:"shuffled"`
+}
+
+func vfC14GlobalFlood(t *testing.T, k *vfKit, caseID string, sh vfC14FloodShape) {
 	r := k.Rand(caseID)
 	sal := vfC14NewSal(t)
 	rx := vfC14NewRx(t, k, caseID)
 	defer rx.close()
 	rx.sleep(time.Duration(r.Intn(4000)) * time.Millisecond)
 	start := time.Now()
-	nSrc := (vfC14Global+extra)/perSrcIDs + 1
 	base := 1000000 + r.Intn(1000)*10000
+	type ent struct {
+		s  int
+		id uint8
+	}
+	var ents []ent
+	nSrc := 0
+	for len(ents) < vfC14Global+1+sh.Extra || nSrc < sh.MinSrc {
+		n := sh.PerSrcIDs
+		if n == 0 {
+			n = 1 + r.Intn(8)
+		}
+		for j := 0; j < n; j++ {
+			ents = append(ents, ent{nSrc, uint8(j*31 + nSrc)})
+		}
+		nSrc++
+	}
+	if sh.Shuffle {
+		r.Shuffle(len(ents), func(i, j int) { ents[i], ents[j] = ents[j], ents[i] })
+	}
 	msgs := map[vfC14Key]*vfC14Msg{}
-	tag := 0
+	tag, frames := 0, 0
 	maxSeen := 0
-	for round := 0; round < perSrcIDs && !rx.failed; round++ {
-		for s := 0; s < nSrc && !rx.failed; s++ {
-			tag++
-			src := vfC14Addr(base + s)
-			m := vfC14Forge(r, sal, tag, src, uint8(round*31+s), 2+r.Intn(7), 1+r.Intn(200))
-			rx.sources[m.SrcS] = append(rx.sources[m.SrcS], m)
-			msgs[vfC14Key{m.SrcS, m.ID}] = m
-			idx := r.Intn(m.Total)
+	for _, en := range ents {
+		if rx.failed {
+			break
+		}
+		tag++
+		src := vfC14Addr(base + en.s)
+		tot := sh.Total
+		if tot == 0 {
+			tot = 2 + r.Intn(7)
+		}
+		m := vfC14Forge(r, sal, tag, src, en.id, tot, 1+r.Intn(200))
+		rx.sources[m.SrcS] = append(rx.sources[m.SrcS], m)
+		msgs[vfC14Key{m.SrcS, m.ID}] = m
+		sub := r.Perm(m.Total)
+		if sh.Nearly {
+			sub = sub[:m.Total-1]
+		} else {
+			sub = sub[:1]
+		}
+		for _, idx := range sub {
 			rx.note(map[string]any{"op": "flood", "src": m.SrcS, "id": m.ID, "idx": idx, "of": m.Total})
+			frames++
 			if d := rx.raw(m.Wire[idx], src); len(d) != 0 {
 				rx.violation("gecko:delivery-without-complete-set", map[string]any{"msg": m.desc(), "delivered": vfC14Desc(d)},
-					"one chunk of a %d-chunk message arrived; ReadFrom returned %s", m.Total, vfC14Desc(d))
+					"%d of %d chunks of a message arrived; ReadFrom returned %s", len(sub), m.Total, vfC14Desc(d))
 			}
 			total, _ := rx.census(false)
 			if total > maxSeen {
 				maxSeen = total
 			}
-			if tag%16 == 0 {
-				time.Sleep(time.Millisecond) // deadlines differ, so "oldest" is defined
+			if rx.failed {
+				break
 			}
 		}
+		if tag%16 == 0 {
+			time.Sleep(time.Millisecond) // deadlines differ, so "oldest" is defined
+		}
 	}
+	k.Count("ev_global_flood_entries", int64(tag))
+	k.Count("ev_global_flood_sources", int64(nSrc))
+	tag = frames
 	k.Count("ev_global_flood_frames", int64(tag))
 	if maxSeen >= vfC14Global {
 		k.Count("ev_global_cap_reached", 1)
@@ -368,7 +417,7 @@ func vfC14GlobalFlood(t *testing.T, k *vfKit, caseID string, perSrcIDs int, extr
 		src := vfC14Addr(base + r.Intn(nSrc))
 		vfC14FreshMustComplete(rx, r, vfC14Forge(r, sal, tag, src, uint8(r.Intn(256)), 2+r.Intn(7), 1+r.Intn(1500)), "after global flood expired")
 	}
-	k.Nontrivial(fmt.Sprintf("%s/%d/%d/%d", caseID, perSrcIDs, nSrc, rx.steps))
+	k.Nontrivial(fmt.Sprintf("%s/%+v/%d/%d", caseID, sh, nSrc, rx.steps))
 }
 
 func vfC14TTLCase(t *testing.T, k *vfKit, caseID string) {
@@ -423,6 +472,110 @@ func vfC14TTLCase(t *testing.T, k *vfKit, caseID string) {
 	k.Nontrivial(fmt.Sprintf("%s/%d", caseID, rx.steps))
 }
 
+// vfC14Pin: "forgotten after its TTL, whatever an attacker sends". A message stays incomplete while
+// frames that change nothing keep arriving for its key (duplicates of chunks it already has; now and
+// then a further new chunk that still does not complete it) at intervals shorter than the TTL, and
+// other sources' traffic flows. The entry must be gone TTL + one GC period after its FIRST chunk.
+// All repeats arrive before the TTL has run out, then the key stays silent, so the expected state is
+// not in doubt at the moment it is inspected. Several cycles = several TTLs of virtual time.
+func vfC14Pin(t *testing.T, k *vfKit, caseID string) {
+	r := k.Rand(caseID)
+	sal := vfC14NewSal(t)
+	rx := vfC14NewRx(t, k, caseID)
+	defer rx.close()
+	honest := []*vfC14Tx{vfC14NewTx(t, k, vfC14Addr(1600000+r.Intn(1000)), 0, 0), vfC14NewTx(t, k, vfC14Addr(1700000+r.Intn(1000)), 1, 2048)}
+	defer honest[0].close()
+	defer honest[1].close()
+	tag := 0
+	other := func() {
+		tag++
+		tx := honest[r.Intn(2)]
+		if hm := tx.write(tag, vfC14Payload(uint32(tag), 1+r.Intn(1500), 0xc0), caseID); hm != nil {
+			rx.register(hm)
+			if rx.wouldBeJudged(hm) {
+				for _, idx := range r.Perm(hm.Total) {
+					rx.feed(hm, idx)
+				}
+			}
+		}
+	}
+	walk := func(until time.Time) {
+		for time.Now().Before(until) && !rx.failed {
+			step := time.Duration(1+r.Intn(1500)) * time.Millisecond
+			if rem := time.Until(until); step > rem {
+				step = rem
+			}
+			rx.sleep(step)
+			if r.Intn(2) == 0 {
+				other()
+			}
+		}
+	}
+	victims := []int{1800000 + r.Intn(1000), 1810000 + r.Intn(1000)}
+	for cycle := 0; cycle < 4 && !rx.failed; cycle++ {
+		rx.sleep(time.Duration(r.Intn(4000)) * time.Millisecond)
+		var ms []*vfC14Msg
+		fed := map[*vfC14Msg][]int{}
+		for i := 0; i < 1+r.Intn(4); i++ {
+			tag++
+			m := vfC14Forge(r, sal, tag, vfC14Addr(victims[r.Intn(2)]), uint8(tag), 2+r.Intn(7), 1+r.Intn(1500))
+			rx.register(m)
+			if !rx.wouldBeJudged(m) {
+				continue
+			}
+			first := r.Intn(m.Total)
+			rx.feed(m, first)
+			ms = append(ms, m)
+			fed[m] = []int{first}
+		}
+		t0 := time.Now()
+		// repeats at ages strictly below the TTL
+		n := 1 + r.Intn(6)
+		ages := make([]time.Duration, n)
+		for i := range ages {
+			ages[i] = time.Duration(1 + r.Int63n(int64(vfC14TTL-time.Millisecond)))
+		}
+		if r.Intn(2) == 0 {
+			ages[0] = vfC14TTL - time.Duration(1+r.Intn(1000))*time.Millisecond // a late one: pushes a refreshed deadline far out
+		}
+		sort.Slice(ages, func(i, j int) bool { return ages[i] < ages[j] })
+		for _, a := range ages {
+			walk(t0.Add(a))
+			for _, m := range ms {
+				if !rx.wouldBeJudged(m) {
+					continue
+				}
+				have := fed[m]
+				if r.Intn(4) == 0 && len(have) < m.Total-1 { // a new chunk, still incomplete afterwards
+					for idx := 0; idx < m.Total; idx++ {
+						seen := false
+						for _, h := range have {
+							seen = seen || h == idx
+						}
+						if !seen {
+							rx.feed(m, idx)
+							fed[m] = append(have, idx)
+							break
+						}
+					}
+					continue
+				}
+				rx.feed(m, have[r.Intn(len(have))]) // duplicate
+				k.Count("ev_pin_repeats", 1)
+			}
+		}
+		// silence for these keys; the rest of the world goes on
+		walk(t0.Add(vfC14Gone + time.Nanosecond))
+		rx.checkState()
+		walk(t0.Add(vfC14Gone + time.Duration(r.Intn(3000))*time.Millisecond))
+		k.Count("ev_pin_cycles", 1)
+	}
+	if !rx.failed {
+		rx.drain()
+	}
+	k.Nontrivial(fmt.Sprintf("%s/%d", caseID, rx.steps))
+}
+
 func TestVerifC14Bounds(t *testing.T) {
 	k := vfNewKit(t, "C14", "gecko-bounds")
 	defer k.Finish()
@@ -438,9 +591,22 @@ func TestVerifC14Bounds(t *testing.T) {
 		n := k.N(600, 1200)
 		list = append(list, sc{fmt.Sprintf("wrap-%d", i), func(t *testing.T, id string) { vfC14Wrap(t, k, id, n) }})
 	}
-	for i := 0; i < k.N(2, 12); i++ {
-		per := []int{1, 8, 3, 2}[i%4]
-		list = append(list, sc{fmt.Sprintf("global-%d", i), func(t *testing.T, id string) { vfC14GlobalFlood(t, k, id, per, 150+50*i) }})
+	shapes := []vfC14FloodShape{
+		{PerSrcIDs: 0, Total: 2, Nearly: true, Extra: 300, MinSrc: 600, Shuffle: true}, // every entry: 1 of 2 chunks
+		{PerSrcIDs: 1, Total: 0, Nearly: false, Extra: 150},                            // 4247 sources, one chunk each
+		{PerSrcIDs: 0, Total: 3, Nearly: true, Extra: 300, MinSrc: 600},
+		{PerSrcIDs: 8, Total: 0, Nearly: false, Extra: 200, Shuffle: true},
+		{PerSrcIDs: 0, Total: 0, Nearly: true, Extra: 300, MinSrc: 600, Shuffle: true}, // mixed counts, all one short
+		{PerSrcIDs: 0, Total: 8, Nearly: true, Extra: 300, MinSrc: 600},
+		{PerSrcIDs: 3, Total: 2, Nearly: true, Extra: 500},
+		{PerSrcIDs: 2, Total: 0, Nearly: false, Extra: 300, Shuffle: true},
+	}
+	for i := 0; i < k.N(6, 24); i++ {
+		sh := shapes[i%len(shapes)]
+		list = append(list, sc{fmt.Sprintf("global-%d", i), func(t *testing.T, id string) { vfC14GlobalFlood(t, k, id, sh) }})
+	}
+	for i := 0; i < k.N(12, 300); i++ {
+		list = append(list, sc{fmt.Sprintf("pin-%d", i), func(t *testing.T, id string) { vfC14Pin(t, k, id) }})
 	}
 	for i := 0; i < k.N(10, 300); i++ {
 		list = append(list, sc{fmt.Sprintf("ttl-%d", i), func(t *testing.T, id string) { vfC14TTLCase(t, k, id) }})
